@@ -15,7 +15,8 @@ def handlers : List (String × (Case → String)) := [
   ("chain", Drivers.Chain.runChain),
   ("reuse", Drivers.Chain.runReuse),
   ("cancel", Drivers.Cancel.run),
-  ("overlap", Drivers.Overlap.run)
+  ("overlap", Drivers.Overlap.run),
+  ("leak", Drivers.Cancel.runLeak)
 ]
 
 def runCase (c : Case) : String :=
